@@ -796,7 +796,7 @@ def run_checkpoint_case(res, rng, i):
     if not programs.well_scaled(prog, x, RAW_USER, bound=1e3):
         res["not_judged"]["ill_scaled"] = res["not_judged"].get("ill_scaled", 0) + 1
         return
-    variant = ["plain", "nested", "kwargs", "two_args", "inside_graph", "ignored_arg", "inner_grad_ignored_arg"][i % 7]
+    variant = ["plain", "nested", "kwargs", "two_args", "inside_graph", "ignored_arg", "inner_grad_ignored_arg", "second_of_two", "last_two_of_three", "constant_first", "zero_cotangent_point"][i % 11]
     st = programs.structure_signature(prog)
     sig = {"engine": "ext", "family": "checkpoint", "variant": variant, "ops": st["ops"]}
     case = {"kind": "checkpoint", "prog": programs.enc_program(prog), "x": enc(x), "variant": variant}
@@ -825,6 +825,22 @@ def run_checkpoint_case(res, rng, i):
         f3 = lambda t, u: programs.interpret(prog, t, anp, U)
         f, fc = f3, checkpoint(f3)
         call = lambda fn: (lambda t: anp.sum(grad(lambda xx: fn(xx * anp.sin(t), xx + t))(t * 0.7 + 0.2) ** 2) + anp.sum(t * t))
+    elif variant in ("second_of_two", "last_two_of_three", "constant_first"):
+        # only a NON-PREFIX subset of the checkpointed function's positional arguments depends on the variable
+        c0 = rng.uniform(0.5, 1.5, size=tuple(prog["shape"]))
+        f4 = lambda a, b, c=1.0: programs.interpret(prog, b * anp.sin(c) + 0.1 * a, anp, U) + anp.sum(a * b)
+        f, fc = f4, checkpoint(f4)
+        if variant == "second_of_two":
+            call = lambda fn: (lambda t: fn(c0, t))
+        elif variant == "last_two_of_three":
+            call = lambda fn: (lambda t: fn(c0, t, anp.cos(t) + 1.5))
+        else:
+            call = lambda fn: (lambda t: fn(2.0 * c0, t * 1.0, 0.7) + fn(c0, anp.tanh(t), t))
+    elif variant == "zero_cotangent_point":
+        # the checkpointed block multiplied by a factor that is exactly ZERO at the evaluation point (its incoming
+        # cotangent vanishes there but depends on the variable): higher derivatives keep the g' f' terms
+        f, fc = base, checkpoint(base)
+        call = lambda fn: (lambda t: anp.sum((t - x) * 1.0) * fn(t) + anp.sum((t - x) ** 2) * fn(t * 1.0))
     else:
         f, fc = base, checkpoint(base)
         call = lambda fn: (lambda t: anp.tanh(fn(anp.sin(t) * 1.1)) + anp.sum(t))
